@@ -270,13 +270,6 @@ theorem C15_retry_mono (recent recent' birth : Int) (c : Chan) (h : recent ≤ r
 
 open Nq.SchedHist Nq.Spec.SchedHist Nq.Lemmas.SchedHist
 
-theorem started_some {s : HSt} {c : Chan} {pe : Elt} (h : started s c = some pe) :
-    ∃ q', passStart s.clock true (s.q c) = some (pe, q') := by
-  unfold started at h
-  cases hp : passStart s.clock true (s.q c) with
-  | none => rw [hp] at h; cases h
-  | some r => rw [hp] at h; exact ⟨r.2, by cases h; rfl⟩
-
 /-- **No early retry, over all quiet histories.**  A pass on channel `c` at time `t = s.clock` starts message
 `pe.id` (born at `m.birth`) and leaves a recipient to do (a temporary failure, or a mangled report).  Then in
 EVERY continuation made of clock changes (forwards or backwards), wake-up computations, further passes on either
@@ -458,6 +451,255 @@ theorem C15_hist_leaves (s : HSt) (L : Int) (hL : IsSqrt s.lifetime L) (hinv : D
     rw [h5]; exact h6
   · intro ho; exact h7 (by rw [← h3]; exact ho)
 
+/-! ### overflow -/
+
+/-- the root never exceeds 65535, for every argument -/
+theorem C15_sqrt_le (x : Int) : squareroot x ≤ 65535 := by
+  have := (C15_sqrt_mono x (max x 4294967296) (Int.le_max_left _ _)).2
+  rw [C15_sqrt_saturated _ (Int.le_max_right _ _)] at this
+  exact this
+
+/-- **No `long` overflow in `nextretry`** (target (c)).  For every `recent`, `birth` that are `long`s, with
+`recent - birth` representable (always true for `birth ≥ 0`) and `birth + (65535 + skip)² < 2⁶³` — i.e. every
+birth time up to 2⁶³ − 4 297 458 026, the year 292 billion — every intermediate of the C computation
+(`recent - birth`, the 16 iterations of `squareroot`, `n + chanskip`, `n * n`, `birth + n * n`) fits, so the
+wrapped (machine) arithmetic computes exactly the mathematical `nextretry` all other theorems talk about.
+Ages near 2³² are inside this range (the root saturates, `C15_future_saturated`); ages near 2⁶³ are inside it as
+long as the subtraction itself is representable. -/
+theorem C15_overflow_range (recent birth : Int) (c : Chan)
+    (hr0 : -9223372036854775808 ≤ recent) (hr1 : recent < 9223372036854775808)
+    (hb0 : -9223372036854775808 ≤ birth)
+    (hx : recent - birth < 9223372036854775808)
+    (hs : birth + (65535 + skip c) * (65535 + skip c) < 9223372036854775808) :
+    nextretryOk recent birth c = true ∧ nextretryW recent birth c = nextretry recent birth c := by
+  have hk := skip_pos c
+  have hk2 : skip c ≤ 20 := by cases c <;> simp [skip]
+  have hb1 : birth < 9223372036854775808 := by nlinarith
+  -- the root
+  have hroot : ∀ a : Int, a = (if birth > recent then 0 else squareroot (recent - birth)) → 0 ≤ a ∧ a ≤ 65535 := by
+    intro a ha
+    by_cases hbr : birth > recent
+    · rw [if_pos hbr] at ha; omega
+    · rw [if_neg hbr] at ha; rw [ha]
+      exact ⟨(C15_sqrt_mono _ _ (Int.le_refl _)).1, C15_sqrt_le _⟩
+  constructor
+  · unfold nextretryOk
+    simp only [chanskip_eq]
+    obtain ⟨a0, a1⟩ := hroot _ rfl
+    generalize (if birth > recent then 0 else squareroot (recent - birth)) = a at a0 a1
+    have hnn : 0 ≤ (a + skip c) * (a + skip c) := by nlinarith
+    have hnn2 : (a + skip c) * (a + skip c) ≤ (65535 + skip c) * (65535 + skip c) := by nlinarith
+    have hnn3 : (65535 + skip c) * (65535 + skip c) ≤ 65555 * 65555 := by nlinarith
+    have hsq : (decide (birth > recent) || (inLong (recent - birth) && sqLoopOk (recent - birth) 16 0 0)) = true := by
+      by_cases hbr : birth > recent
+      · simp [hbr]
+      · have := C15_sqrt_nooverflow (recent - birth) (by omega) hx
+        simp only [this, inLong]; simp; omega
+    have hfin : birth + (a + skip c) * (a + skip c) < 9223372036854775808 := by omega
+    generalize (a + skip c) * (a + skip c) = p at hnn hnn2 hfin ⊢
+    rw [hsq]
+    simp only [inLong]
+    simp
+    refine ⟨⟨⟨⟨?_, ?_⟩, ?_⟩, ?_⟩, ?_⟩ <;> omega
+  · unfold nextretryW nextretry
+    simp only [chanskip_eq]
+    by_cases hbr : birth > recent
+    · simp only [if_pos hbr]
+      rw [wrap64_id (0 + skip c) (by omega) (by omega)]
+      have : (0 + skip c) * (0 + skip c) ≤ 400 := by nlinarith
+      have : 0 ≤ (0 + skip c) * (0 + skip c) := by nlinarith
+      rw [wrap64_id ((0 + skip c) * (0 + skip c)) (by omega) (by omega)]
+      have hnn2 : (0 + skip c) * (0 + skip c) ≤ (65535 + skip c) * (65535 + skip c) := by nlinarith
+      rw [wrap64_id _ (by omega) (by omega)]
+    · simp only [if_neg hbr]
+      rw [wrap64_id (recent - birth) (by omega) hx]
+      obtain ⟨a0, a1⟩ := hroot (squareroot (recent - birth)) (by rw [if_neg hbr])
+      generalize squareroot (recent - birth) = a at a0 a1
+      rw [wrap64_id (a + skip c) (by omega) (by omega)]
+      have hnn : 0 ≤ (a + skip c) * (a + skip c) := by nlinarith
+      have hnn2 : (a + skip c) * (a + skip c) ≤ (65535 + skip c) * (65535 + skip c) := by nlinarith
+      have hnn3 : (65535 + skip c) * (65535 + skip c) ≤ 65555 * 65555 := by nlinarith
+      rw [wrap64_id ((a + skip c) * (a + skip c)) (by omega) (by omega)]
+      rw [wrap64_id _ (by omega) (by omega)]
+
+/-- complement: what the C does when the mathematical retry time does not fit a `long` (birth within
+4 297 458 025 s of 2⁶³): `birth + n * n` overflows — undefined behaviour in C; with the two's-complement
+wrap-around the supported compilers produce, the retry time comes out as `retry − 2⁶⁴`, a negative time, i.e. in
+the past: such a message would be retried at every pass.  (`nextretryOk` is false there; the harness never
+generates such a case because the build is UBSan-instrumented.) -/
+theorem C15_overflow_wraps (recent birth : Int) (c : Chan) (hb0 : 0 ≤ birth) (hbr : birth ≤ recent)
+    (hr1 : recent < 9223372036854775808) (hov : 9223372036854775808 ≤ nextretry recent birth c) :
+    nextretryOk recent birth c = false ∧
+    nextretryW recent birth c = nextretry recent birth c - 18446744073709551616 ∧ nextretryW recent birth c < 0 := by
+  have hk := skip_pos c
+  have hk2 : skip c ≤ 20 := by cases c <;> simp [skip]
+  have a0 := (C15_sqrt_mono (recent - birth) _ (Int.le_refl _)).1
+  have a1 := C15_sqrt_le (recent - birth)
+  have hW : nextretryW recent birth c = nextretry recent birth c - 18446744073709551616 := by
+    unfold nextretryW nextretry at *
+    simp only [chanskip_eq] at *
+    simp only [if_neg (by omega : ¬ birth > recent)] at *
+    rw [wrap64_id (recent - birth) (by omega) (by omega)]
+    generalize squareroot (recent - birth) = a at a0 a1 hov ⊢
+    rw [wrap64_id (a + skip c) (by omega) (by omega)]
+    have hnn : 0 ≤ (a + skip c) * (a + skip c) := by nlinarith
+    have hnn2 : (a + skip c) * (a + skip c) ≤ 65555 * 65555 := by nlinarith
+    rw [wrap64_id ((a + skip c) * (a + skip c)) (by omega) (by omega)]
+    unfold wrap64; omega
+  refine ⟨?_, hW, ?_⟩
+  · unfold nextretryOk
+    unfold nextretry at hov
+    simp only [chanskip_eq] at *
+    generalize (if birth > recent then 0 else squareroot (recent - birth)) = a at hov ⊢
+    have : inLong (birth + (a + skip c) * (a + skip c)) = false := by
+      simp only [inLong]; simp; omega
+    rw [this]; simp
+  · rw [hW]
+    unfold nextretry at *
+    simp only [chanskip_eq] at *
+    simp only [if_neg (by omega : ¬ birth > recent)] at *
+    generalize squareroot (recent - birth) = a at a0 a1 hov ⊢
+    have hnn2 : (a + skip c) * (a + skip c) ≤ 65555 * 65555 := by nlinarith
+    omega
+
+
+/-! ### the system-failure paths: SLEEP_SYSFAIL re-insertion, full `job_close`, `pqadd`, pqfail (target (b)) -/
+
+/-- **The `trouble:` exit of `pass_dochan`** (channel file or info file cannot be opened): the message stays on
+the channel heap (same ids as before the pass: not lost), heap order kept, and its new due time
+`recent + SLEEP_SYSFAIL` is strictly later than the due time it had — which was its back-off time —, so the
+failure never makes a retry earlier. -/
+theorem C15_trouble (recent : Int) (ja : Bool) (q q' : PQ) (pe : Elt) (h : Heap q)
+    (hs : passStart recent ja q = some (pe, q')) :
+    Heap (passTrouble recent pe q') ∧
+    (passTrouble recent pe q').toList.Perm ({ dt := recent + SLEEP_SYSFAIL, id := pe.id } :: q'.toList) ∧
+    (ids (passTrouble recent pe q')).Perm (ids q) ∧ pe.dt < recent + SLEEP_SYSFAIL := by
+  obtain ⟨hdue, _, hperm, hh'⟩ := C15_order recent ja q q' pe h hs
+  have hi := insert_spec q' { dt := recent + SLEEP_SYSFAIL, id := pe.id } hh'
+  refine ⟨hi.1, hi.2, ?_, ?_⟩
+  · have h1 := ids_insert q' { dt := recent + SLEEP_SYSFAIL, id := pe.id } hh'
+    have h2 : (ids q).Perm (pe.id :: ids q') := by
+      have := hperm.map (fun e : Elt => e.id); simpa [ids] using this
+    exact h1.trans h2.symm
+  · have : (0 : Int) < SLEEP_SYSFAIL := by decide
+    omega
+
+/-- **`job_close` in full.**  Heaps stay heaps and keep all their entries.  Never lost: afterwards the message is
+on the channel heap, or in pqdone, or its other channel file exists (and is tracked there, `C15_hist_noloss`).
+Never earlier than the back-off time: whenever a recipient is left to do (or the pass was cut short before EOF)
+the message is re-inserted exactly at `retry`, the file is kept and pqdone untouched.  The file is removed only
+when nothing is left to do; if the unlink fails the message stays scheduled at `now + SLEEP_SYSFAIL` — there is
+then no recipient left whose delivery could be retried early. -/
+theorem C15_jobclose (job : Job) (id : Nat) (hiteof : Bool) (numtodo : Nat) (unlinkOk : Bool) (st : StatRes) (now : Int)
+    (q done : PQ) (hq : Heap q) (hd : Heap done) :
+    Heap (jobCloseF job id hiteof numtodo unlinkOk st now q done).chan ∧
+    Heap (jobCloseF job id hiteof numtodo unlinkOk st now q done).done ∧
+    (∀ e ∈ q.toList, e ∈ (jobCloseF job id hiteof numtodo unlinkOk st now q done).chan.toList) ∧
+    (∀ e ∈ done.toList, e ∈ (jobCloseF job id hiteof numtodo unlinkOk st now q done).done.toList) ∧
+    (id ∈ ids (jobCloseF job id hiteof numtodo unlinkOk st now q done).chan ∨
+      id ∈ ids (jobCloseF job id hiteof numtodo unlinkOk st now q done).done ∨ ∃ t, st = .found t) ∧
+    ((numtodo ≠ 0 ∨ hiteof = false) →
+      (jobCloseF job id hiteof numtodo unlinkOk st now q done).chan = q.insert { dt := job.retry, id := id } ∧
+      (jobCloseF job id hiteof numtodo unlinkOk st now q done).done = done ∧
+      (jobCloseF job id hiteof numtodo unlinkOk st now q done).removed = false) ∧
+    ((jobCloseF job id hiteof numtodo unlinkOk st now q done).removed = true →
+      numtodo = 0 ∧ hiteof = true ∧ unlinkOk = true ∧ (jobCloseF job id hiteof numtodo unlinkOk st now q done).chan = q) ∧
+    (hiteof = true → numtodo = 0 → unlinkOk = false →
+      (jobCloseF job id hiteof numtodo unlinkOk st now q done).chan = q.insert { dt := now + SLEEP_SYSFAIL, id := id } ∧
+      (jobCloseF job id hiteof numtodo unlinkOk st now q done).removed = false) := by
+  have hin : ∀ (x : Int), id ∈ ids (q.insert { dt := x, id := id }) := fun x =>
+    ((ids_insert q _ hq).mem_iff).mpr (List.mem_cons_self ..)
+  have hind : ∀ (x : Int), id ∈ ids (done.insert { dt := x, id := id }) := fun x =>
+    ((ids_insert done _ hd).mem_iff).mpr (List.mem_cons_self ..)
+  have hsubq : ∀ (x : Elt), ∀ e ∈ q.toList, e ∈ (q.insert x).toList := fun x e he => (mem_insert q x e hq).mpr (Or.inr he)
+  have hsubd : ∀ (x : Elt), ∀ e ∈ done.toList, e ∈ (done.insert x).toList := fun x e he => (mem_insert done x e hd).mpr (Or.inr he)
+  have hsubq' : ∀ (x : Elt), ∀ e ∈ q, e ∈ q.insert x := fun x e he => by
+    have := hsubq x e (by simpa using he); simpa using this
+  have hsubd' : ∀ (x : Elt), ∀ e ∈ done, e ∈ done.insert x := fun x e he => by
+    have := hsubd x e (by simpa using he); simpa using this
+  unfold jobCloseF
+  by_cases hn : numtodo = 0
+  · subst hn
+    cases hiteof <;> cases unlinkOk <;> cases st <;>
+      simp [(insert_spec q _ hq).1, (insert_spec done _ hd).1, hq, hd, hin, hind] <;>
+      (first | exact hsubq' _ | exact hsubd' _)
+  · have : (numtodo == 0) = false := by simpa using hn
+    cases hiteof <;> simp [this, hn, (insert_spec q _ hq).1, hd, hin] <;> exact hsubq' _
+
+
+/-- **`pqadd` in full (restart and pqfail re-adds).**  Heaps stay heaps.  Never lost: if the info file is there
+(or cannot be examined) and no todo file is seen, the message ends up in at least one of pqchan[0], pqchan[1],
+pqdone, pqfail.  Complete: with no stat error each existing channel file is scheduled.  Never earlier: the only
+possible change of a channel heap is the insertion of ⟨mtime of the channel file, id⟩ — the persisted back-off
+time (`C15_persist`); pqdone gets at most ⟨now, id⟩, pqfail at most ⟨now + SLEEP_SYSFAIL, id⟩. -/
+theorem C15_pqadd (now : Int) (info todo ch0 ch1 : StatRes) (id : Nat) (h : Heaps)
+    (h0 : Heap h.q0) (h1 : Heap h.q1) (hd : Heap h.done) (hf : Heap h.fail) :
+    (Heap (pqaddF now info todo ch0 ch1 id h).q0 ∧ Heap (pqaddF now info todo ch0 ch1 id h).q1 ∧
+      Heap (pqaddF now info todo ch0 ch1 id h).done ∧ Heap (pqaddF now info todo ch0 ch1 id h).fail) ∧
+    (info ≠ .noent → (∀ t, todo ≠ .found t) →
+      id ∈ ids (pqaddF now info todo ch0 ch1 id h).q0 ∨ id ∈ ids (pqaddF now info todo ch0 ch1 id h).q1 ∨
+      id ∈ ids (pqaddF now info todo ch0 ch1 id h).done ∨ id ∈ ids (pqaddF now info todo ch0 ch1 id h).fail) ∧
+    (∀ ti t0, info = .found ti → todo = .noent → ch0 = .found t0 → ch1 ≠ .err →
+      (pqaddF now info todo ch0 ch1 id h).q0 = h.q0.insert { dt := t0, id := id }) ∧
+    (∀ ti t1, info = .found ti → todo = .noent → ch1 = .found t1 → ch0 ≠ .err →
+      (pqaddF now info todo ch0 ch1 id h).q1 = h.q1.insert { dt := t1, id := id }) ∧
+    ((pqaddF now info todo ch0 ch1 id h).q0 = h.q0 ∨
+      ∃ t0, ch0 = .found t0 ∧ (pqaddF now info todo ch0 ch1 id h).q0 = h.q0.insert { dt := t0, id := id }) ∧
+    ((pqaddF now info todo ch0 ch1 id h).q1 = h.q1 ∨
+      ∃ t1, ch1 = .found t1 ∧ (pqaddF now info todo ch0 ch1 id h).q1 = h.q1.insert { dt := t1, id := id }) ∧
+    ((pqaddF now info todo ch0 ch1 id h).done = h.done ∨
+      (pqaddF now info todo ch0 ch1 id h).done = h.done.insert { dt := now, id := id }) ∧
+    ((pqaddF now info todo ch0 ch1 id h).fail = h.fail ∨
+      (pqaddF now info todo ch0 ch1 id h).fail = h.fail.insert { dt := now + SLEEP_SYSFAIL, id := id }) := by
+  have hin : ∀ (q : PQ) (x : Int), Heap q → id ∈ ids (q.insert { dt := x, id := id }) := fun q x hq =>
+    ((ids_insert q _ hq).mem_iff).mpr (List.mem_cons_self ..)
+  have hi0 := fun x : Int => hin h.q0 x h0
+  have hi1 := fun x : Int => hin h.q1 x h1
+  have hid := fun x : Int => hin h.done x hd
+  have hif := fun x : Int => hin h.fail x hf
+  have k0 := fun x : Elt => (insert_spec h.q0 x h0).1
+  have k1 := fun x : Elt => (insert_spec h.q1 x h1).1
+  have kd := fun x : Elt => (insert_spec h.done x hd).1
+  have kf := fun x : Elt => (insert_spec h.fail x hf).1
+  cases info <;> cases todo <;> cases ch0 <;> cases ch1 <;>
+    simp [pqaddF, h0, h1, hd, hf, hi0, hi1, hid, hif, k0, k1, kd, kf]
+
+/-- **pqfail is drained only by re-adding.**  One `pass_do()`: every pqfail entry either stays in pqfail, or it
+is the due minimum and the state afterwards is exactly `pqadd(id)` applied to the heaps without it — which by
+`C15_pqadd` keeps the message in one of the heaps, with the persisted due time if it goes to a channel. -/
+theorem C15_pqfail (recent now : Int) (files : Nat → Files) (h : Heaps)
+    (h0 : Heap h.q0) (h1 : Heap h.q1) (hd : Heap h.done) (hf : Heap h.fail) (e : Elt)
+    (he : e ∈ h.fail.toList) :
+    e ∈ (passDoFail recent now files h).fail.toList ∨
+    (e.dt ≤ recent ∧ (∀ x ∈ h.fail.toList, e.dt ≤ x.dt) ∧ h.fail.min = some e ∧
+      h.fail.toList.Perm (e :: h.fail.delmin.toList) ∧ Heap h.fail.delmin ∧
+      passDoFail recent now files h =
+        pqaddF now (files e.id).info (files e.id).todo (files e.id).ch0 (files e.id).ch1 e.id { h with fail := h.fail.delmin }) := by
+  unfold passDoFail
+  cases hm : h.fail.min with
+  | none =>
+    have := (C15_heap_empty h.fail hm).2
+    rw [this] at he; cases he
+  | some pe =>
+    simp only
+    obtain ⟨hmem, hmin⟩ := C15_heap_min h.fail pe hf hm
+    obtain ⟨hh', hperm⟩ := C15_heap_delmin h.fail pe hf hm
+    by_cases hdue : pe.dt ≤ recent
+    · rw [if_pos hdue]
+      by_cases hpe : e = pe
+      · right; subst hpe; exact ⟨hdue, hmin, rfl, hperm, hh', rfl⟩
+      · left
+        have he' : e ∈ h.fail.delmin.toList := by
+          rcases List.mem_cons.mp ((hperm.mem_iff).mp he) with h | h
+          · exact absurd h hpe
+          · exact h
+        -- pqadd only ever adds to pqfail
+        rcases (C15_pqadd now (files pe.id).info (files pe.id).todo (files pe.id).ch0 (files pe.id).ch1 pe.id
+          { h with fail := h.fail.delmin } h0 h1 hd hh').2.2.2.2.2.2.2 with hh | hh
+        · rw [hh]; exact he'
+        · rw [hh]; exact (mem_insert _ _ _ hh').mpr (Or.inr he')
+    · rw [if_neg hdue]; left; exact he
+
 /-! ### Non-vacuity: concrete inputs meeting the hypotheses -/
 
 example : squareroot 1000000 = 1000 ∧ squareroot 999999 = 999 ∧ squareroot 4294967295 = 65535 := by decide
@@ -471,5 +713,43 @@ example : passStart 2 true #[⟨3, 4⟩, ⟨5, 1⟩, ⟨9, 3⟩] = none := by de
 /-- the default lifetime 604800 has root 777: the expiring attempt is due within 797² s of birth (remote) -/
 example : IsSqrt 604800 777 := by decide
 example : (jobOpen 1000 100 800 .loc).dying = true ∧ (jobOpen 900 100 800 .loc).dying = false := by decide
+
+/-! ### non-vacuity of the history-level theorems -/
+
+/-- the empty queue is well-formed, nothing is lost in it, and nothing is overdue -/
+theorem C15_hist_init (lifetime clock L : Int) :
+    DInv L ({ lifetime := lifetime, clock := clock } : HSt) := by
+  refine ⟨⟨fun c => by cases c <;> exact heap_empty, heap_empty, List.nodup_nil, fun c => by cases c <;> exact List.nodup_nil,
+    fun c e he => by cases c <;> cases he⟩, (fun m hm => by cases hm), (fun c e he => by cases c <;> cases he)⟩
+
+/-- a history: message 7 (local, born at 1000, 2 recipients, due at 2000) and message 9 (due at 1990) -/
+def exS : HSt := run { lifetime := 604800 } [.mk 7 .loc 1000 2000 2, .mk 9 .loc 1500 1990 1, .load, .clock 2000]
+
+example : started exS .loc = some ⟨1990, 9⟩ ∧ rank exS .loc 2000 = 2 ∧
+    started (step exS (.pass .loc [90] .none)).1 .loc = some ⟨2000, 7⟩ := by decide
+def exS1 : HSt := (step exS (.pass .loc [90] .none)).1
+example : (exS1.find 7).map (·.birth) = some 1000 ∧ exS1.clock - 1000 < 4294967296 := by decide
+example : ((step exS1 (.pass .loc [90, 75] .none)).1.find 7).map (·.recs .loc) = some (some [true, false]) ∧
+    nextretry 2000 1000 .loc = 2681 := by decide
+example : started (runQ (step exS1 (.pass .loc [90, 75] .none)).1 [.clock 2680, .pass .loc [75] .none, .restart, .pass .rem [90] .openf]) .loc = none ∧
+    started (runQ (step exS1 (.pass .loc [90, 75] .none)).1 [.clock 2680, .pass .loc [75] .none, .restart, .clock 2681]) .loc = some ⟨2681, 7⟩ := by decide
+/-- expiry: lifetime 100, message born at 1000, now 2000: one pass answered Z removes it and puts it into pqdone -/
+def exE : HSt := run { lifetime := 100 } [.mk 7 .rem 1000 1500 3, .load, .clock 2000]
+example : started exE .rem = some ⟨1500, 7⟩ ∧ ((step exE (.pass .rem [90] .none)).1.find 7).map (·.recs .rem) = some none ∧
+    ids (step exE (.pass .rem [90] .none)).1.done = [7] ∧ expiryBound 10 1000 .rem = 1900 ∧ IsSqrt 100 10 := by decide
+/-- system failures: open failure keeps the message, 123 s later; unlink failure keeps the all-done file scheduled -/
+example : ((step exE (.pass .rem [90] .openf)).1.q .rem).toList = [⟨2123, 7⟩] ∧
+    ((step exE (.pass .rem [75] .unlink)).1.q .rem).toList = [⟨2123, 7⟩] ∧
+    ((step exE (.pass .rem [75] .unlink)).1.find 7).map (·.recs .rem) = some (some [false, false, false]) := by decide
+example : (pqaddF 50 (.found 1) .noent (.found 40) .err 7 {}).fail.toList = [⟨173, 7⟩] ∧
+    (pqaddF 50 (.found 1) .noent (.found 40) .noent 7 {}).q0.toList = [⟨40, 7⟩] ∧
+    (pqaddF 50 (.found 1) .noent .noent .noent 7 {}).done.toList = [⟨50, 7⟩] := by decide
+example : (passDoFail 60 61 (fun _ => { info := .found 1, ch1 := .found 44 }) { fail := #[⟨55, 7⟩] }).q1.toList = [⟨44, 7⟩] ∧
+    (passDoFail 54 55 (fun _ => { info := .found 1, ch1 := .found 44 }) { fail := #[⟨55, 7⟩] }).fail.toList = [⟨55, 7⟩] := by decide
+/-- overflow: inside the range, and a birth time 50 s below 2⁶³ where `birth + n*n` wraps to a negative time -/
+example : nextretryOk 1759000000 1758000000 .rem = true ∧
+    nextretryOk 9223372036854775757 9223372036854775757 .loc = false ∧
+    nextretry 9223372036854775757 9223372036854775757 .loc = 9223372036854775857 ∧
+    nextretryW 9223372036854775757 9223372036854775757 .loc = -9223372036854775759 := by decide
 
 end Nq.Props.C15
